@@ -696,8 +696,8 @@ func (e *c15env) do(tk []string) string {
 		return "ok"
 	case len(tk) == 4 && tk[1] == "creadopt":
 		// clients m...: one read through StreamingConn with its own options — <ms> > 0: ReadMessageWithOpts
-		// with a deadline that far ahead; 0: ReadMessage (no deadline; the harness bounds it through
-		// the connection it would otherwise wait on for ever)
+		// with a deadline that far ahead; 0: ReadMessageWithOpts with the zero options (no deadline; the
+		// harness bounds the wait); 300000: ReadMessage (which arms its own five minutes)
 		cl, ok := e.cl[tk[2]]
 		ms, err := strconv.Atoi(tk[3])
 		if !ok || !cl.manual || err != nil || ms < 0 {
@@ -707,7 +707,13 @@ func (e *c15env) do(tk []string) string {
 		ch := make(chan res, 1)
 		go func() {
 			for {
-				f, again := cl.c15frame(onet.StreamingReadOpts{Deadline: time.Now().Add(time.Duration(ms) * time.Millisecond)}, ms == 0)
+				// 0: the zero options (no deadline: the deadline an earlier read armed is cleared);
+				// 300000: ReadMessage (its own five minutes); else a deadline that far ahead
+				opts := onet.StreamingReadOpts{}
+				if ms > 0 {
+					opts.Deadline = time.Now().Add(time.Duration(ms) * time.Millisecond)
+				}
+				f, again := cl.c15frame(opts, ms == c15readMessageMs)
 				if f == "undecodable" && again {
 					continue
 				}
@@ -718,7 +724,7 @@ func (e *c15env) do(tk []string) string {
 		select {
 		case r := <-ch:
 			return r.f
-		case <-time.After(c15wait + time.Duration(ms)*time.Millisecond):
+		case <-time.After(c15wait + time.Duration(ms%c15readMessageMs)*time.Millisecond):
 			return "timeout"
 		}
 	case len(tk) == 3 && tk[1] == "quiet":
@@ -1483,11 +1489,17 @@ func (g *c15g) pingWhileWriting(c string, n, kb int) []string {
 func (g *c15g) readOptions(c string, ms, rounds int) []string {
 	ops := []string{"c15 open " + c + " fresh", "c15 wstart " + c + " 0"}
 	for i := 0; i < rounds; i++ {
+		// the reads after the quiet period: the zero options (nothing armed: what the earlier read armed
+		// must be gone), then ReadMessage (its own five minutes)
 		ops = append(ops, fmt.Sprintf("c15 emit %s 0 %d", c, g.v()), fmt.Sprintf("c15 creadopt %s %d", c, ms),
-			fmt.Sprintf("c15 quiet %d", ms+300), fmt.Sprintf("c15 emit %s 0 %d", c, g.v()), "c15 creadopt "+c+" 0")
+			fmt.Sprintf("c15 quiet %d", ms+300), fmt.Sprintf("c15 emit %s 0 %d", c, g.v()), "c15 creadopt "+c+" 0",
+			fmt.Sprintf("c15 emit %s 0 %d", c, g.v()), fmt.Sprintf("c15 creadopt %s %d", c, c15readMessageMs))
 	}
 	return append(ops, "c15 svcclose "+c+" 0", "c15 creadopt "+c+" 0", "c15 wstop "+c+" 0")
 }
+
+// the <ms> of `creadopt` that stands for StreamingConn.ReadMessage (deadline: five minutes from now)
+const c15readMessageMs = 300000
 
 // the service emits a value that cannot be encoded: the forwarder of that channel ends. two = false: the
 // only channel — the stream ends with a normal close, the service is told at tear-down; two = true: the
